@@ -10,9 +10,16 @@
 //   pn random <seed> <histories> <ops> <nodes> <maxT> <NEVER> <report.ndjson> <trace.ndjson> [<histories written to the trace>]
 //        seeded random long histories with re-entrant callbacks; monitor on everything, list well-formedness after every call
 //        and inside every callback; all events are written to the trace for validation against PulseAbs by TLC (PulseTrace.tla).
-#define private public      // read-only access to the private list fields for the state comparison; no layout change
+// With -DVERIF_NO_PRIVATE (binary pn_np, the fallback when a refactoring of PulseNode's private members breaks this file) nothing
+// private is touched: the state comparison is reduced to what the public API shows (GetPulseParent(), GetScheduledPulseTime()),
+// the list well-formedness checks are skipped; every property-level oracle (the PulseAbs monitor on the callbacks) runs unchanged.
+#ifndef VERIF_NO_PRIVATE
+# define private public      // read-only access to the private list fields for the state comparison; no layout change
+#endif
 #include "util/PulseNode.h"
-#undef private
+#ifndef VERIF_NO_PRIVATE
+# undef private
+#endif
 #include "system/SetupSystem.h"
 #include "mjson.h"
 #include <random>
@@ -158,7 +165,14 @@ public:
 };
 
 struct Proj {std::vector<int> par, cur; std::vector<bool> valid; std::vector<int64_t> sched, agg; std::vector<std::vector<std::vector<int> > > ls; std::string bad;
-   bool operator==(const Proj & r) const {return (par == r.par)&&(cur == r.cur)&&(valid == r.valid)&&(sched == r.sched)&&(agg == r.agg)&&(ls == r.ls);} };
+   bool operator==(const Proj & r) const
+   {
+#ifdef VERIF_NO_PRIVATE
+      return (par == r.par)&&(sched == r.sched);      // what the public API shows
+#else
+      return (par == r.par)&&(cur == r.cur)&&(valid == r.valid)&&(sched == r.sched)&&(agg == r.agg)&&(ls == r.ls);
+#endif
+   } };
 static std::string ProjStr(const Proj & p)
 {
    std::string s = "par["; char b[64];
@@ -215,6 +229,14 @@ struct World {
       else if (o.op == "tick") clock = o.t;
    }
    // the private state of the real nodes, and whether the three lists of every node are well formed
+#ifdef VERIF_NO_PRIVATE
+   Proj Snapshot()
+   {
+      Proj p; std::vector<std::vector<int> > l3(3);
+      for (int i=0; i<N; i++) { TNode * x = n[i]; p.par.push_back(x ? IdOf(x->GetPulseParent()) : -1); p.sched.push_back(x ? ToSpec(x->GetScheduledPulseTime()) : NEVER); p.cur.push_back(-1); p.valid.push_back(false); p.agg.push_back(NEVER); p.ls.push_back(l3); }
+      return p;
+   }
+#else
    Proj Snapshot()
    {
       Proj p; wfchecks++;
@@ -248,6 +270,7 @@ struct World {
       if ((!p.bad.empty())&&(wfbad.empty())) wfbad = p.bad + ": " + ProjStr(p);
       return p;
    }
+#endif
    void Drift(const std::string & s) {if (drift.size() < 3) drift.push_back(s);}
 
    // what a node does when the library calls it back; kind 0 = GetPulseTime, 1 = Pulse
